@@ -279,6 +279,13 @@ func (L *Loaded) fn(pkgPath, name string) *ssa.Function {
 	if ptr {
 		t = types.NewPointer(t)
 	}
+	if named, ok := obj.Type().(*types.Named); ok {
+		for i := 0; i < named.NumMethods(); i++ {
+			if named.Method(i).Name() == parts[1] {
+				return L.Prog.FuncValue(named.Method(i))
+			}
+		}
+	}
 	sel := L.Prog.MethodSets.MethodSet(t).Lookup(sp.Pkg, parts[1])
 	if sel == nil {
 		return nil
